@@ -34,3 +34,17 @@ Theorem c16_end_of_life_known_kinds : forall e, known_env e -> forall progs, wf_
   chk_C16 e (c_trace (final_step e (exec e (init progs) sched) t f)) = true.
 Proof. exact known_C16_final. Qed.
 Print Assumptions c16_end_of_life_known_kinds.
+
+(** the wrapper over an arbitrary iterator whose next() and whose closures do not panic *)
+From OCI.proofs Require Import IterBase ChkIter IterRunC16.
+Theorem c16_runs_wrapped_iterator : forall e, iter_env e -> e_crash e = None -> forall progs, wf_progs progs -> plain_progs progs -> forall sched,
+  nowrap (c_labels (exec e (init progs) sched)) ->
+  chk_C16 e (c_trace (exec e (init progs) sched)) = true.
+Proof. exact iter_C16_run. Qed.
+Print Assumptions c16_runs_wrapped_iterator.
+
+Theorem c16_end_of_life_wrapped_iterator : forall e, iter_env e -> e_crash e = None -> forall progs, wf_progs progs -> plain_progs progs -> forall sched,
+  nowrap (c_labels (exec e (init progs) sched)) -> forall t f,
+  chk_C16 e (c_trace (final_step e (exec e (init progs) sched) t f)) = true.
+Proof. exact iter_C16_final. Qed.
+Print Assumptions c16_end_of_life_wrapped_iterator.
